@@ -174,7 +174,101 @@ def impl_pred(g, cls=None, probe=None):
             state["n"] = 0
             out.append(fn(teams))
         return tuple(out)
-    return model.predict_win(teams), model.predict_draw(teams), model.predict_rank(teams)
+    if core.HISTORY_EVERY and h % core.HISTORY_EVERY == 2 and not g.get("_no_history"):
+        teams = pred_history(model, teams, g, h)
+    # the three queries in one of the six possible orders (a query must not depend on which other query was made before it)
+    order = ((0, 1, 2), (2, 0, 1), (1, 2, 0), (2, 1, 0), (0, 2, 1), (1, 0, 2))[h // 7 % 6]
+    fns = (model.predict_win, model.predict_draw, model.predict_rank)
+    out = [None, None, None]
+    for k in order:
+        out[k] = fns[k](teams)
+    if h % 4 == 1 and not g.get("_no_history"):
+        # the caller owns what a query returns: the returned lists are edited in place (percentages, sorting, popping) and the same
+        # queries repeated — every answer is a fresh object holding the same numbers
+        PRED_STATS["results_edited_then_repeated"] = PRED_STATS.get("results_edited_then_repeated", 0) + 1
+        keep = (list(out[0]), out[1], [tuple(x) for x in out[2]])
+        try:
+            out[0][:] = [100.0 * x for x in reversed(out[0])]
+            out[2].sort(key=lambda x: -x[1]); out[2].pop()
+        except Exception:  # noqa: BLE001
+            pass
+        again = (model.predict_win(teams), model.predict_draw(teams), model.predict_rank(teams))
+        if (list(again[0]), again[1], [tuple(x) for x in again[2]]) != keep:
+            core.INTERLEAVE_FAILURES.append(("a prediction repeated after the caller edited the returned list in place gives %r, the first answer was %r" % (
+                again, keep), dict(g, _pred=True)))
+        out = [list(keep[0]), keep[1], [tuple(x) for x in keep[2]]]
+    return tuple(out)
+
+
+def pred_history(model, teams, g, h):
+    """what was asked of this model, and of these rating objects, BEFORE the queries under test must not matter; returns the list object
+    to query (mode 3 hands back the very list object that earlier queries saw with another content)"""
+    mode = (h // 5) % 6
+    PRED_STATS["history_mode_%d" % mode] = PRED_STATS.get("history_mode_%d" % mode, 0) + 1
+    flat = []
+    for t in teams:
+        for p in t:
+            if not any(p is q for q in flat):
+                flat.append(p)
+    prior = [(p.mu, p.sigma) for p in flat]
+
+    def restore():
+        for p, (m, s_) in zip(flat, prior):
+            p.mu, p.sigma = m, s_
+    three = lambda mdl, ts: (mdl.predict_win(ts), mdl.predict_draw(ts), mdl.predict_rank(ts))   # noqa: E731
+    try:
+        if mode == 1:
+            # another model object of the same class with another beta answers the same questions about the same objects first
+            other = type(model)(beta=g["beta"] * 2.5 + 0.5)
+            three(other, teams)
+            three(type(model)(beta=g["beta"] * 0.5), teams)
+        elif mode == 2:
+            # queries that fail half-way (a later team contains a rating whose sigma is None), made while the players held other values
+            for p in flat:
+                p.mu, p.sigma = p.mu * 0.5 - g["beta"], p.sigma * 1.5 + 0.1 * g["beta"]
+            bad = model.rating(mu=g["beta"], sigma=g["beta"])
+            bad.sigma = None
+            for fn in (model.predict_draw, model.predict_rank, model.predict_win):
+                try:
+                    fn(teams + [[bad]])
+                except Exception:  # noqa: BLE001
+                    pass
+            restore()
+        elif mode == 3:
+            # the same outer list object queried with fewer / more teams before (a lobby that filled up), and sub-lobbies of it
+            extra = [model.rating(mu=g["beta"] * 5.5, sigma=g["beta"] * 1.75)]
+            lobby = list(teams)
+            if len(lobby) > 2:
+                last = lobby.pop()
+                three(model, lobby)
+                lobby.append(last)
+            three(model, lobby)
+            lobby.append(extra)
+            three(model, lobby)
+            lobby.pop()
+            return lobby
+        elif mode == 4:
+            # the same queries were answered earlier, when these players held other values (attributes assigned since)
+            for p in flat:
+                p.mu, p.sigma = p.mu + 1.5 * g["beta"], p.sigma * 0.5
+            three(model, teams)
+            restore()
+        elif mode == 5:
+            # the same players in malformed containers (must be rejected whatever was answered before), after a well-formed query
+            three(model, teams)
+            for bad in (tuple(teams), [tuple(t) for t in teams], teams[:1], [teams[0], []]):
+                for fn in (model.predict_win, model.predict_draw, model.predict_rank):
+                    try:
+                        fn(bad)
+                        core.INTERLEAVE_FAILURES.append(("%s accepted a malformed argument (%s) after a well-formed query on the same players" % (
+                            fn.__name__, type(bad).__name__ if not isinstance(bad, list) else "list with a malformed team"), dict(g, _pred=True)))
+                    except (TypeError, ValueError):
+                        pass
+                    except Exception as e:  # noqa: BLE001
+                        core.INTERLEAVE_FAILURES.append(("%s on a malformed argument raised %s" % (fn.__name__, type(e).__name__), dict(g, _pred=True)))
+    finally:
+        restore()
+    return teams
 
 
 def corr_pred(res, games, kind_on_mismatch, label, which=("win", "draw", "rank"), hp=False):
